@@ -266,6 +266,44 @@ def check_roundtrip(ctx, cls, schema, vals, origin) -> None:
         ctx.violation("struct-roundtrip-differs", f"{cls.__qualname__}: fields {diff} differ after decode(encode(m)) ({len(got)} bytes)", replay)
         return
     ctx.count("struct_roundtrips")
+    # decoding is a function of the BYTES alone: the caller may do what it likes with a decoded message (they are ordinary
+    # mutable dataclasses) - decoding the same bytes again still yields the message that was sent
+    if scramble(back, top=True):
+        try:
+            again = cls.decode(bytes(got))
+        except Exception as ex:  # noqa: BLE001
+            ctx.violation(f"struct-decode-again-raises-{type(ex).__name__}", f"{cls.__qualname__} fields {sorted(vals)}: second decode of the same bytes after the first result was modified: {ex!r}", replay)
+            return
+        if again != inst:
+            diff = [f.name for f in dataclasses.fields(cls) if f.init and getattr(again, f.name) != getattr(inst, f.name)]
+            ctx.violation("struct-decode-depends-on-earlier-result", f"{cls.__qualname__}: after the caller modified the first decoded message, decoding the same {len(got)} bytes again gives different fields {diff}", replay)
+            return
+        ctx.count("struct_decodes_independent_of_earlier_results")
+
+
+def scramble(obj, top=False) -> int:
+    """Overwrite every nested part of a decoded message in place (what a caller is free to do); returns how many were touched."""
+    n = 0
+    for f in dataclasses.fields(obj):
+        v = getattr(obj, f.name, None)
+        if dataclasses.is_dataclass(v) and not isinstance(v, type):
+            n += 1 + scramble(v)
+        elif isinstance(v, list):
+            for item in v:
+                if dataclasses.is_dataclass(item) and not isinstance(item, type):
+                    n += 1 + scramble(item)
+            n += 1
+            v.clear()
+        elif isinstance(v, bytearray):
+            n += 1
+            v[:] = b"\xee" * (len(v) + 1)
+    if not top:
+        for f in dataclasses.fields(obj):
+            try:
+                setattr(obj, f.name, None)
+            except Exception:  # noqa: BLE001 - a frozen structure cannot be altered by the caller either
+                pass
+    return n
 
 
 def roundtrip_part(ctx, sch, classes) -> None:
